@@ -52,6 +52,8 @@ type vOp struct {
 	gen    int64
 	patch  string
 	write  bool
+	// applied: the call returned an error but the write went through (lost response)
+	applied bool
 }
 
 type vWorld struct {
@@ -73,6 +75,7 @@ type vWorld struct {
 	crashAt     bool   // if set, an injected fault is a crash (sentinel panic) instead of an error
 	faulted     []string
 	uidSeq      int
+	lost        bool // the last injected failure was a lost response: the write was applied
 	// listerFaults: lookups in the claim cache may fail too (C06)
 	listerFaults bool
 }
@@ -112,6 +115,18 @@ func (w *vWorld) fault(verb, resource, name string) error {
 	}
 	w.faulted = append(w.faulted, verb+":"+vFaultKindNames[kind])
 	sym.Cover("fault injected at " + verb)
+	// a failure may hide a write that went through: NotFound on delete means the
+	// object is gone, AlreadyExists on create means it is there, a timeout may
+	// have been applied or not
+	w.lost = false
+	switch {
+	case kind == 4:
+		w.lost = sym.Pick("applied@"+verb+":"+name, 2) == 1
+	case kind == 2 && strings.HasSuffix(verb, ".delete"):
+		w.lost = true
+	case kind == 3 && strings.HasSuffix(verb, ".create"):
+		w.lost = true
+	}
 	gr := schema.GroupResource{Resource: resource}
 	switch kind {
 	case 1:
@@ -165,9 +180,13 @@ func (p *vPods) find(name string) int {
 
 func (p *vPods) Create(ctx context.Context, pod *v1.Pod, o metav1.CreateOptions) (*v1.Pod, error) {
 	op := p.w.record(vOp{verb: "pod.create", name: pod.Name, pod: pod.DeepCopy(), write: true})
-	if err := p.w.fault("pod.create", "pods", pod.Name); err != nil {
+	ferr := p.w.fault("pod.create", "pods", pod.Name)
+	if ferr != nil {
 		op.failed = true
-		return nil, err
+		op.applied = p.w.lost
+		if !p.w.lost {
+			return nil, ferr
+		}
 	}
 	if p.find(pod.Name) >= 0 {
 		op.failed = true
@@ -179,14 +198,21 @@ func (p *vPods) Create(ctx context.Context, pod *v1.Pod, o metav1.CreateOptions)
 	p.w.uidSeq++
 	c.UID = types.UID(fmt.Sprintf("uid-pod-%d", p.w.uidSeq))
 	p.w.apiPods = append(p.w.apiPods, c)
+	if ferr != nil {
+		return nil, ferr
+	}
 	return c.DeepCopy(), nil
 }
 
 func (p *vPods) Update(ctx context.Context, pod *v1.Pod, o metav1.UpdateOptions) (*v1.Pod, error) {
 	op := p.w.record(vOp{verb: "pod.update", name: pod.Name, pod: pod.DeepCopy(), write: true})
-	if err := p.w.fault("pod.update", "pods", pod.Name); err != nil {
+	ferr := p.w.fault("pod.update", "pods", pod.Name)
+	if ferr != nil {
 		op.failed = true
-		return nil, err
+		op.applied = p.w.lost
+		if !p.w.lost {
+			return nil, ferr
+		}
 	}
 	i := p.find(pod.Name)
 	if i < 0 {
@@ -194,14 +220,21 @@ func (p *vPods) Update(ctx context.Context, pod *v1.Pod, o metav1.UpdateOptions)
 		return nil, apierrors.NewNotFound(schema.GroupResource{Resource: "pods"}, pod.Name)
 	}
 	p.w.apiPods[i] = pod.DeepCopy()
+	if ferr != nil {
+		return nil, ferr
+	}
 	return pod.DeepCopy(), nil
 }
 
 func (p *vPods) Delete(ctx context.Context, name string, o metav1.DeleteOptions) error {
 	op := p.w.record(vOp{verb: "pod.delete", name: name, write: true})
-	if err := p.w.fault("pod.delete", "pods", name); err != nil {
+	ferr := p.w.fault("pod.delete", "pods", name)
+	if ferr != nil {
 		op.failed = true
-		return err
+		op.applied = p.w.lost
+		if !p.w.lost {
+			return ferr
+		}
 	}
 	i := p.find(name)
 	if i < 0 {
@@ -209,13 +242,18 @@ func (p *vPods) Delete(ctx context.Context, name string, o metav1.DeleteOptions)
 		return apierrors.NewNotFound(schema.GroupResource{Resource: "pods"}, name)
 	}
 	op.pod = p.w.apiPods[i]
+	if ferr != nil && apierrors.IsNotFound(ferr) {
+		// "not found": somebody else removed the pod for good
+		p.w.apiPods = append(p.w.apiPods[:i:i], p.w.apiPods[i+1:]...)
+		return ferr
+	}
 	// graceful deletion: the pod stays, marked terminating, until the kubelet is done
 	if p.w.apiPods[i].DeletionTimestamp == nil {
 		c := p.w.apiPods[i].DeepCopy()
 		c.DeletionTimestamp = &metav1.Time{}
 		p.w.apiPods[i] = c
 	}
-	return nil
+	return ferr
 }
 
 func (p *vPods) Patch(ctx context.Context, name string, pt types.PatchType, data []byte, o metav1.PatchOptions, sub ...string) (*v1.Pod, error) {
@@ -277,9 +315,13 @@ type vPVCs struct {
 
 func (p *vPVCs) Create(ctx context.Context, c *v1.PersistentVolumeClaim, o metav1.CreateOptions) (*v1.PersistentVolumeClaim, error) {
 	op := p.w.record(vOp{verb: "pvc.create", name: c.Name, write: true})
-	if err := p.w.fault("pvc.create", "persistentvolumeclaims", c.Name); err != nil {
+	ferr := p.w.fault("pvc.create", "persistentvolumeclaims", c.Name)
+	if ferr != nil {
 		op.failed = true
-		return nil, err
+		op.applied = p.w.lost
+		if !p.w.lost {
+			return nil, ferr
+		}
 	}
 	for _, q := range p.w.apiPVCs {
 		if q.Name == c.Name {
@@ -288,6 +330,9 @@ func (p *vPVCs) Create(ctx context.Context, c *v1.PersistentVolumeClaim, o metav
 		}
 	}
 	p.w.apiPVCs = append(p.w.apiPVCs, c.DeepCopy())
+	if ferr != nil {
+		return nil, ferr
+	}
 	return c.DeepCopy(), nil
 }
 
@@ -332,9 +377,13 @@ func (r *vRevs) List(ctx context.Context, o metav1.ListOptions) (*kubeapps.Contr
 
 func (r *vRevs) Create(ctx context.Context, rev *kubeapps.ControllerRevision, o metav1.CreateOptions) (*kubeapps.ControllerRevision, error) {
 	op := r.w.record(vOp{verb: "rev.create", name: rev.Name, rev: rev.DeepCopy(), write: true})
-	if err := r.w.fault("rev.create", "controllerrevisions", rev.Name); err != nil {
+	ferr := r.w.fault("rev.create", "controllerrevisions", rev.Name)
+	if ferr != nil {
 		op.failed = true
-		return nil, err
+		op.applied = r.w.lost
+		if !r.w.lost {
+			return nil, ferr
+		}
 	}
 	if r.find(rev.Name) >= 0 {
 		op.failed = true
@@ -345,14 +394,21 @@ func (r *vRevs) Create(ctx context.Context, rev *kubeapps.ControllerRevision, o 
 	r.w.uidSeq++
 	c.UID = types.UID(fmt.Sprintf("uid-rev-%d", r.w.uidSeq))
 	r.w.apiRevs = append(r.w.apiRevs, c)
+	if ferr != nil {
+		return nil, ferr
+	}
 	return c.DeepCopy(), nil
 }
 
 func (r *vRevs) Update(ctx context.Context, rev *kubeapps.ControllerRevision, o metav1.UpdateOptions) (*kubeapps.ControllerRevision, error) {
 	op := r.w.record(vOp{verb: "rev.update", name: rev.Name, rev: rev.DeepCopy(), write: true})
-	if err := r.w.fault("rev.update", "controllerrevisions", rev.Name); err != nil {
+	ferr := r.w.fault("rev.update", "controllerrevisions", rev.Name)
+	if ferr != nil {
 		op.failed = true
-		return nil, err
+		op.applied = r.w.lost
+		if !r.w.lost {
+			return nil, ferr
+		}
 	}
 	i := r.find(rev.Name)
 	if i < 0 {
@@ -360,14 +416,21 @@ func (r *vRevs) Update(ctx context.Context, rev *kubeapps.ControllerRevision, o 
 		return nil, apierrors.NewNotFound(schema.GroupResource{Resource: "controllerrevisions"}, rev.Name)
 	}
 	r.w.apiRevs[i] = rev.DeepCopy()
+	if ferr != nil {
+		return nil, ferr
+	}
 	return rev.DeepCopy(), nil
 }
 
 func (r *vRevs) Delete(ctx context.Context, name string, o metav1.DeleteOptions) error {
 	op := r.w.record(vOp{verb: "rev.delete", name: name, write: true})
-	if err := r.w.fault("rev.delete", "controllerrevisions", name); err != nil {
+	ferr := r.w.fault("rev.delete", "controllerrevisions", name)
+	if ferr != nil {
 		op.failed = true
-		return err
+		op.applied = r.w.lost
+		if !r.w.lost {
+			return ferr
+		}
 	}
 	i := r.find(name)
 	if i < 0 {
@@ -376,7 +439,7 @@ func (r *vRevs) Delete(ctx context.Context, name string, o metav1.DeleteOptions)
 	}
 	op.rev = r.w.apiRevs[i]
 	r.w.apiRevs = append(r.w.apiRevs[:i:i], r.w.apiRevs[i+1:]...)
-	return nil
+	return ferr
 }
 
 func (r *vRevs) Get(ctx context.Context, name string, o metav1.GetOptions) (*kubeapps.ControllerRevision, error) {
@@ -476,15 +539,22 @@ func (s *vSets) Get(ctx context.Context, name string, o metav1.GetOptions) (*app
 
 func (s *vSets) UpdateStatus(ctx context.Context, set *apps.StatefulSet, o metav1.UpdateOptions) (*apps.StatefulSet, error) {
 	op := s.w.record(vOp{verb: "set.updateStatus", name: set.Name, status: set.Status.DeepCopy(), gen: set.Generation, write: true})
-	if err := s.w.fault("set.updateStatus", "statefulsets", set.Name); err != nil {
+	ferr := s.w.fault("set.updateStatus", "statefulsets", set.Name)
+	if ferr != nil {
 		op.failed = true
-		return nil, err
+		op.applied = s.w.lost
+		if !s.w.lost {
+			return nil, ferr
+		}
 	}
 	for i, x := range s.w.apiSets {
 		if x.Name == set.Name && x.Namespace == s.ns {
 			c := x.DeepCopy()
 			c.Status = *set.Status.DeepCopy()
 			s.w.apiSets[i] = c
+			if ferr != nil {
+				return nil, ferr
+			}
 			return c.DeepCopy(), nil
 		}
 	}
